@@ -46,10 +46,25 @@ def run(ctx):
         uni.int_group(name, *medium_group(qb, pb, 2))
         uni.paramset("P" + name, grp=name)
         sets.append(("P" + name, name))
+    # custom groups of unusual shape (core.zoo): derivation lengths of several hash blocks plus a partial one (s600:
+    # 75 and 91 bytes; m521: 66), q above 2^256, one-byte q, q filling its bytes, safe primes of both residues mod 8
+    zl = ["s600", "m521", "q251", "s72a", "q64full", "s136", "s264", "s72b", "m64", "m65"]
+    for z in (zl if thorough else zl[:4]):
+        uni.paramset("P" + z, grp=z)
+        sets.append(("P" + z, z))
+    # parameter sets whose blinding elements COINCIDE (legal for custom groups: the published construction maps two
+    # seeds to the same element, or the user passes the same seed twice): S = M, S = N, and M = N = S
+    for name, (p_, q_, g_) in {"c29": (29, 7, 16), "c179": (179, 89, 4), "c137": (137, 17, 119)}.items():
+        uni.int_group(name, p_, q_, g_)
+        uni.paramset("P" + name, grp=name)                    # default seeds; S equals M (c29, c137) or N (c179) as elements
+        sets.append(("P" + name, name))
+    uni.paramset("Pi23-sameseed", grp="i23", M=b"M1", N=b"N1", S=b"M1")
+    uni.paramset("Pi263-allsame", grp="i263", M=b"x", N=b"x", S=b"x")
+    sets += [("Pi23-sameseed", "i23"), ("Pi263-allsame", "i263")]
     n = 0
     for ps, g in sets:
         q = uni.group(g).order()
-        full = g in ("Ed25519", "I1024", "I2048", "I3072")
+        full = g in ("Ed25519", "I1024", "I2048", "I3072") or g in zoo()
         reps = (16 if thorough else 3) if full else (40 if thorough else 10)
         edge = [0, 1, q - 1, (q + 1) // 2]
         for k in range(reps):
@@ -81,6 +96,29 @@ def run(ctx):
             r = exchange(uni, "long-inputs/%s/%d" % (ps, k), pairing, ps, pw, pw, idt, idt,
                          mp.stream_for(g, 3 % q), mp.stream_for(g, 5 % q), restoreA=1)
             traces.append(r.json())
+    # every way of calling the constructors (positional, keyword, defaults left out - see Trace._construct) with every
+    # pattern of empty / non-empty identities: the session is defined by the values bound, not by the call shape
+    from core import Trace as _T
+    for ps, g in (("Pi23", "i23"), ("PEd25519", "Ed25519")):
+        q = uni.group(g).order()
+        for shape in range(_T.NSHAPES):
+            for k, ids in enumerate([(b"", b"bob"), (b"alice", b""), (b"", b""), (b"al", b"ice")]):
+                if g == "Ed25519" and not thorough and (shape + k) % 4:
+                    continue
+                for pairing in ("AB", "SS"):
+                    ca, cb = ("A", "B") if pairing == "AB" else ("S", "S")
+                    r = Run("call-shape/%s/%s/shape%d/ids%d" % (ps, pairing, shape, k), uni)
+                    idt = ids if pairing == "AB" else ((ids[1] or ids[0]), b"")
+                    r.inst["a"] = r.t.new(ca, ps, b"pw-shape", idt[0], idt[1], shape=shape)
+                    r.inst["b"] = r.t.new(cb, ps, b"pw-shape", idt[0], idt[1], shape=(shape + 1 + k) % _T.NSHAPES)
+                    ma = r.start("a", mp.stream_for(g, 2 % q))
+                    mb = r.start("b", mp.stream_for(g, 7 % q))
+                    blob = r.serialize("a")
+                    if blob is not None and r.restore("a2", ca, ps, blob) is not None and mb is not None:
+                        r.finish("a2", mb)
+                    if ma is not None:
+                        r.finish("b", ma)
+                    traces.append(r.json())
     ctx.validate(traces, uni, what="interop exchange")
     # 4. code -> spec: every session the repository's own 43 tests create, validated against the specification
     import subprocess
